@@ -78,4 +78,26 @@ class VirtualTime:
         self.now += dt
 
 
+class OffsetView:
+    """A `time` module stand-in that reads the shared virtual clock plus an epoch offset.
+    Lets a party live at a large absolute time (TSIG time signed) while the simulation
+    clock itself stays small enough for exact float arithmetic."""
+
+    def __init__(self, vt, offset=0.0):
+        self.vt = vt
+        self.offset = offset
+
+    def time(self):
+        return self.vt.now + self.offset
+
+    def monotonic(self):
+        return self.vt.now
+
+    def sleep(self, seconds):
+        self.vt.sleep(seconds)
+
+    def __getattr__(self, name):
+        return getattr(_real_time, name)
+
+
 VT = VirtualTime()
